@@ -747,6 +747,21 @@ class Printer:
             return ''
         if v['kind'] != 'VarDecl':
             raise Unsupported('declaration kind ' + v['kind'])
+        if v.get('storageClass') == 'static' or v.get('tls'):
+            # a function-local static keeps its value across calls and is shared by every caller.  DFCC treats a C static
+            # local as part of the implicit frame of the function that declares it, which would hide exactly this sharing:
+            # it is printed as a file-scope object `nv_static_<function>_<name>` (every global is nondeterministic at
+            # entry), so that a write to it must be listed in the assigns clause like any other global
+            if v.get('tls'):
+                raise Unsupported(f'thread_local variable {v.get("name")}')
+            c = self.ctype(v['type'])
+            if v['type'].get('qualType', '').rstrip().endswith('&'):
+                raise Unsupported(f'function-local static reference {v.get("name")}')
+            g = f'nv_static_{self.cname}_{v["name"]}'
+            self.protos[g] = f'{c} {g};   /* function-local static {v["name"]} of {self.cname} */'
+            self.renamed[v.get('id')] = g
+            self.note(f'function-local static {v.get("name")} -> global {g}')
+            return ''
         init = [x for x in v.get('inner', []) if x.get('kind') not in ('FullComment',)]
         ty = v['type'].get('qualType', '').rstrip()
         if init and unwrap(init[0]).get('kind') == 'LambdaExpr':
